@@ -1,7 +1,205 @@
 package main
 
-import "golang.org/x/tools/go/ssa"
+// Map.Walk(ctx, ranger, callback) desugared to a loop over the abstract ordered entry sequence of
+// the range, cut with "walk <k> invariant" clauses of the function under verification.
+//
+// For walk number k (k-th Walk executed on the path) the following symbols are available in the
+// invariant:   $i      number of entries already visited
+//              $n      number of entries in the range
+//              $key(t) key of the t-th visited entry (0 <= t < $n)
+// Assumed (A-COLL): the visited keys are exactly the present keys of the range, each once, in key
+// order (descending if requested).
+
+import (
+	"fmt"
+	"go/types"
+	"strings"
+
+	"golang.org/x/tools/go/ssa"
+)
+
+func (x *Exec) walkInvs(k int) []*Clause {
+	if x.topC == nil {
+		return nil
+	}
+	var out []*Clause
+	for _, cl := range x.topC.Of("walkinv") {
+		if cl.Loop == k {
+			out = append(out, cl)
+		}
+	}
+	return out
+}
 
 func (x *Exec) walkWithInvariant(c *CallCtx, d collDesc, h int, fn *ssa.Function, free []Value) []Outcome {
-	return nil
+	st := c.st
+	k := st.walks
+	st.walks++
+	invs := x.walkInvs(k)
+	if len(invs) == 0 {
+		return nil
+	}
+	e := x.enc
+	x.assumed["A-COLL: Map.Walk visits exactly the present keys of the range, each once, in key order"] = true
+	ks := e.Sort(d.keyTy)
+	vs := e.Sort(d.valTy)
+	id := e.Fresh("w")
+	wkey := e.DeclFun("wkey."+id, []string{"Int"}, ks)
+	widx := e.DeclFun("widx."+id, []string{ks}, "Int")
+	wn := e.DeclConst("wn."+id, "Int")
+	m0 := x.ghostGet(st, h, d.name, d.sort, d.gi)
+	optS := "(Opt " + vs + ")"
+	// range membership and order
+	var rng RangeV
+	rv := c.args[2]
+	if iv, ok := rv.(IfaceV); ok {
+		rv = iv.V
+	}
+	if r, ok := rv.(RangeV); ok {
+		rng = r
+	} else if !isNilConst(rv) {
+		if tv, ok := rv.(TV); !ok || tv.T != "iface_nil" {
+			x.fail("Walk with unsupported ranger %s", describe(rv))
+			return nil
+		}
+	}
+	inRange := func(key string) string {
+		if rng.Prefix != "" {
+			return eq(app("fst", key), rng.Prefix)
+		}
+		return "true"
+	}
+	lt := func(a, b string) string {
+		switch {
+		case strings.HasPrefix(ks, "(Pair"):
+			// within a prefix range the order is that of the second component
+			sa, sb := app("snd", a), app("snd", b)
+			if strings.HasSuffix(ks, " Int)") {
+				return app("<", sa, sb)
+			}
+			return app("<", x.bcmpDecl(sa, sb), "0")
+		case ks == "Int":
+			return app("<", a, b)
+		default:
+			return app("<", x.bcmpDecl(a, b), "0")
+		}
+	}
+	st.Assume(and(app(">=", wn, "0"), app("<", wn, two63)))
+	st.Assume(fmt.Sprintf("(forall ((t Int)) (! (=> (and (<= 0 t) (< t %s)) (and %s %s)) :pattern ((%s t))))", wn,
+		isSomeT(app("select", m0, app(wkey, "t")), optS), inRange(app(wkey, "t")), wkey))
+	st.Assume(fmt.Sprintf("(forall ((k %s)) (! (=> (and %s %s) (and (<= 0 (%s k)) (< (%s k) %s) (= (%s (%s k)) k))) :pattern ((%s k)) :pattern ((select %s k))))", ks,
+		isSomeT(app("select", m0, "k"), optS), inRange("k"), widx, widx, wn, wkey, widx, widx, m0))
+	ord := lt(app(wkey, "t"), app(wkey, "u"))
+	if rng.Desc {
+		ord = lt(app(wkey, "u"), app(wkey, "t"))
+	}
+	st.Assume(fmt.Sprintf("(forall ((t Int) (u Int)) (! (=> (and (<= 0 t) (< t u) (< u %s)) %s) :pattern ((%s t) (%s u))))", wn, ord, wkey, wkey))
+
+	fr := c.fr
+	for fr.parent != nil {
+		fr = fr.parent
+	}
+	evalInv := func(s *State, cl *Clause, i string) string {
+		env := x.frameEnv(s, fr)
+		bound := x.letBound(x.contractOf(fr.fn), fr)
+		if !fr.isTop {
+			bound = map[string]SV{}
+			for kk, v := range x.topLets {
+				bound[kk] = v
+			}
+		}
+		bound["$i"] = SV{T: i, Sort: "Int"}
+		bound["$n"] = SV{T: wn, Sort: "Int"}
+		sv, err := evalSpecFns(cl.node, env, x.sigs, bound, map[string]FunSig{"$key": {Args: []string{"Int"}, Ret: ks}}, map[string]string{"$key": wkey})
+		if err != nil {
+			x.fail("walk %d invariant %s: %v", k, cl.Tag, err)
+			return "true"
+		}
+		return sv.T
+	}
+	for _, cl := range invs {
+		x.addObl(fmt.Sprintf("walk%d.init", k), cl.Tag, cl.Text, st, evalInv(st, cl, "0"), cl.Props)
+	}
+	// havoc what the callback may write
+	cells := map[int]bool{}
+	for idx := range x.closureWrites(fn) {
+		if idx < len(free) {
+			x.markReachable(st, free[idx], cells)
+		}
+	}
+	for cnum := range cells {
+		if tv, ok := st.cells[cnum].(TV); ok {
+			st.cells[cnum] = x.freshTV("walkcell", tv.Ty, st)
+		}
+	}
+	ws, unk := x.fnWrites(fn, map[*ssa.Function]bool{})
+	x.havocGhost(st, ws, unk)
+	i := e.FreshConst("wi", "Int")
+	st.Assume(and(app("<=", "0", i), app("<=", i, wn)))
+	for _, cl := range invs {
+		st.Assume(evalInv(st, cl, i))
+	}
+	var outs []Outcome
+	// exhausted
+	{
+		s := st.Clone()
+		s.Assume(eq(i, wn))
+		outs = append(outs, Outcome{st: s, vals: []Value{nilErr()}})
+	}
+	// one more entry
+	s := st
+	s.Assume(app("<", i, wn))
+	key := app(wkey, i)
+	cur := x.ghostGet(s, h, d.name, d.sort, d.gi)
+	val := TV{T: app("val", app("select", cur, key)), Ty: d.valTy}
+	s.Assume(isSomeT(app("select", cur, key), optS))
+	for _, f := range e.TypeFacts(val.T, d.valTy, 0) {
+		s.Assume(f)
+	}
+	keyV := TV{T: key, Ty: d.keyTy}
+	for _, f := range e.TypeFacts(app("snd", key), pairSnd(d.keyTy), 0) {
+		if strings.HasPrefix(ks, "(Pair") {
+			s.Assume(f)
+		}
+	}
+	res := x.execFunc(s, fn, []Value{keyV, val}, free, c.fr.depth+1, false, c.fr)
+	for _, r := range res {
+		if r.panic {
+			outs = append(outs, r)
+			continue
+		}
+		stop, errv := term(r.vals[0]), term(r.vals[1])
+		// error: Walk returns it
+		if errv != "0" {
+			a := r.st.Clone()
+			a.Assume(not(eq(errv, "0")))
+			outs = append(outs, Outcome{st: a, vals: []Value{TV{T: errv, Ty: tError}}})
+		}
+		ok := r.st
+		ok.Assume(eq(errv, "0"))
+		if stop != "false" {
+			a := ok.Clone()
+			a.Assume(stop)
+			outs = append(outs, Outcome{st: a, vals: []Value{nilErr()}})
+		}
+		if stop != "true" {
+			ok.Assume(not(stop))
+			for _, cl := range invs {
+				x.addObl(fmt.Sprintf("walk%d.step", k), cl.Tag, cl.Text, ok, evalInv(ok, cl, app("+", i, "1")), cl.Props)
+			}
+		}
+	}
+	return outs
+}
+
+func pairSnd(t types.Type) types.Type {
+	if n, ok := types.Unalias(t).(*types.Named); ok && n.TypeArgs() != nil && n.TypeArgs().Len() == 2 {
+		return n.TypeArgs().At(1)
+	}
+	return types.Typ[types.Int]
+}
+
+func (x *Exec) bcmpDecl(a, b string) string {
+	x.declBytesOps()
+	return app("bcmp", a, b)
 }
